@@ -64,3 +64,23 @@ pub fn run(args: &[i128], cap: usize) -> Vec<i128> {
     rets.extend(obs);
     rets
 }
+
+// shortest-path queries after a history. line: spath_<cap> B ops...
+// output: return values of the ops, then for every ordered pair (s,t) in 0..B: -1 | len n1..nlen
+pub fn run_spath(args: &[i128], cap: usize) -> Vec<i128> {
+    let b = args[0] as usize;
+    let mut g: UltraGraph<i64> = ultragraph::new_with_matrix_storage(cap);
+    let mut out = Vec::new();
+    for op in args[1..].chunks(4) {
+        out.push(apply(&mut g, op));
+    }
+    for s in 0..b {
+        for t in 0..b {
+            match g.shortest_path(s, t) {
+                None => out.push(-1),
+                Some(p) => { out.push(p.len() as i128); out.extend(p.iter().map(|x| *x as i128)); }
+            }
+        }
+    }
+    out
+}
